@@ -1,5 +1,6 @@
 import NLE.Proofs.OwnTok
 import NLE.Theorems.C01
+import NLE.Gen.Shape
 /-!
 # C05 — fencing tokens are unique per leadership term and constant within it
 
@@ -42,5 +43,12 @@ theorem leader_token_is_own_records_token {evs : List TEv} {s : State} (h : run 
 example : (match run {} C01.f10Trace with
     | .ok s => s.hist.map (fun m => (m.kind, afterToks m))
     | .error _ => []) = [(.delete, []), (.takeover, [3]), (.create, [1])] := by decide
+
+/-- AST facts: the token field is written only by `becomeLeader` (and the constructor); the takeover write publishes a
+    new uuid; a promotion is refused while the instance already leads (no second token within a term). -/
+theorem shape :
+    Gen.tokenWriters = ["kvElection.becomeLeader", "newKVElection"] ∧ Gen.takeoverFreshToken = true ∧
+    Gen.becomeLeaderRefusesWhenLeading = true := by decide
+
 
 end NLE.Theorems.C05
